@@ -1080,6 +1080,9 @@ class StringTensor(TensorBase, _protocols.TensorProtocol):  # pylint: disable=to
         assert isinstance(self._raw, Sequence), (
             f"Bug: Expected a sequence, got {type(self._raw)}"
         )
+        if dtype is None:
+            # Fixed-width bytes arrays (dtype "S") drop trailing NUL bytes of the elements
+            dtype = object
         return np.array(self._raw, dtype=dtype).reshape(self.shape.numpy())
 
     def __dlpack__(self, *, stream: Any = None) -> Any:
